@@ -644,6 +644,12 @@ pub mod verif {
         pub fn age(&mut self, ms: u64) {
             age_of(&mut self.inner, ms)
         }
+
+        /// Undo `micros` microseconds of REAL elapsed time: every stored deadline moves that much into
+        /// the future.
+        pub fn rewind_micros(&mut self, micros: u64) {
+            rewind_of(&mut self.inner, micros)
+        }
     }
 
     fn dump_of(fetcher: &ReplicationFetcher) -> (Vec<PendingEntry>, Vec<OngoingEntry>) {
@@ -694,6 +700,22 @@ pub mod verif {
     /// `age` for the driver's fetcher.
     pub fn driver_fetcher_age(driver: &mut crate::SwarmDriver, ms: u64) {
         age_of(&mut driver.replication_fetcher, ms)
+    }
+
+    /// Undo `micros` microseconds of REAL elapsed time for the driver's fetcher: every stored deadline
+    /// moves that much into the future (a slow harness step must not look like passing time).
+    pub fn driver_fetcher_rewind_micros(driver: &mut crate::SwarmDriver, micros: u64) {
+        rewind_of(&mut driver.replication_fetcher, micros)
+    }
+
+    fn rewind_of(fetcher: &mut ReplicationFetcher, micros: u64) {
+        let d = Duration::from_micros(micros);
+        for deadline in fetcher.to_be_fetched.values_mut() {
+            *deadline += d;
+        }
+        for (_, deadline) in fetcher.on_going_fetches.values_mut() {
+            *deadline += d;
+        }
     }
 
     /// What `add_keys_to_replication_fetcher` does once the holder passed its closeness gate: the
